@@ -373,6 +373,7 @@ def _build_serializer(spec: dict) -> Any:
             encoding=spec.get("encoding", "ascii"),
             limit=spec.get("limit", DEFAULT_LIMIT),
             keep_end=spec.get("keep_end", False),
+            unicode_errors=spec.get("uerr", "strict"),
             debug=bool(spec.get("debug")),
         )
     if k == "json":
@@ -441,7 +442,15 @@ SEPARATORS_1_3 = [b"\n", b"\r\n", b"|", b"\x00", b"::", b"ab", b"aa", b"\r\n\r",
 B64_SEPARATORS = [b"\r\n", b"\n", b"|", b" ", b"\t\n ", b"::", b"\x00", b"#!#"]
 
 
-def st_text_for(encoding: str, forbidden: str | None) -> st.SearchStrategy[str]:
+def st_text_for(encoding: str, forbidden: str | None, uerr: str = "strict") -> st.SearchStrategy[str]:
+    if uerr == "surrogateescape":
+        # escaped raw bytes that can never become part of a valid sequence in `encoding` (so every one of them decodes
+        # back to the same lone surrogate): ascii - any byte >= 0x80; utf-8 - continuation bytes and 0xF8..0xFF
+        raw = list(range(0x80, 0x100)) if encoding == "ascii" else list(range(0x80, 0xC0)) + list(range(0xF8, 0x100))
+        esc = st.sampled_from([chr(0xDC00 + b) for b in raw])
+        plain = st.characters(min_codepoint=32, max_codepoint=126)
+        base = st.lists(st.one_of(esc, plain, plain), min_size=1, max_size=30).map("".join)
+        return st.one_of(base, st_text_for(encoding, None)).map(lambda s: _strip_forbidden(s, forbidden)).filter(lambda s: len(s) > 0)
     if encoding == "ascii":
         alpha = st.characters(min_codepoint=0, max_codepoint=127)
     elif encoding == "latin-1":
@@ -522,12 +531,17 @@ def st_leaf_spec(draw: st.DrawFn, *, kinds: list[str] | None = None) -> dict:
     """one-shot capable 'inner' serializers (for wrappers) and leaf stream serializers; no limit key yet."""
     k = draw(st.sampled_from(kinds or ["line", "json", "struct", "namedtuple", "autosep", "fixed", "hfile", "lenprefixed"]))
     if k == "line":
-        return {
+        spec = {
             "kind": "line",
             "newline": draw(st.sampled_from(["LF", "CR", "CRLF"])),
             "encoding": draw(st.sampled_from(["ascii", "utf-8", "latin-1"])),
             "keep_end": draw(st.booleans()),
         }
+        if spec["encoding"] != "latin-1" and draw(st.integers(0, 3)) == 0:
+            # a non-strict error handler is part of the serializer's configuration on every encode/decode site:
+            # with surrogateescape, text carrying escaped raw bytes round-trips (see st_text_for)
+            spec["uerr"] = "surrogateescape"
+        return spec
     if k == "json":
         ensure_ascii = draw(st.booleans())
         return {
@@ -614,11 +628,11 @@ def st_packet(spec: dict) -> st.SearchStrategy[Any]:
         if inner["kind"] == "line":
             # one-shot line serializer: any text round-trips unless keep_end is False and it ends with the newline
             nl = NEWLINES[inner["newline"]].decode()
-            strat = st_text_for(inner["encoding"], None).map(lambda s: s.rstrip(nl) if not inner.get("keep_end") else s)
+            strat = st_text_for(inner["encoding"], None, inner.get("uerr", "strict")).map(lambda s: s.rstrip(nl) if not inner.get("keep_end") else s)
             return strat.filter(lambda s: len(s) > 0)
         return st_packet(inner)
     if k == "line":
-        return st_text_for(spec["encoding"], NEWLINES[spec["newline"]].decode())
+        return st_text_for(spec["encoding"], NEWLINES[spec["newline"]].decode(), spec.get("uerr", "strict"))
     if k == "json":
         return st_json_value(ascii_only=False)
     if k == "struct":
